@@ -8,6 +8,7 @@ from .. import core
 from .. import gen as G
 
 LEVEL = "proof"
+READY = True
 CLAIM = {
     "text": "Lean theorems over ALL documents and pointers (no size bound): resolve_every_node(_escape), resolve_conforms "
             "(value returned iff RFC 6901 evaluates, otherwise a pointer resolution error), exists_iff_resolve, proved for the "
